@@ -231,7 +231,7 @@ partial def runCircuitOps (ck : CloserKind) (c : Circ OState CState) (cfgSpec : 
             (joinVerdicts [("C01", verdictC01 cfgSpec adm pv op ro), ("C05", verdictC05 cfgSpec adm pv op ro),
               ("C06", verdictC06 cfgSpec op ro), ("C02", verdictC02 cfgSpec op ro), ("C07", verdictC07 cfgSpec op ro), ("C08", verdictC08 cfgSpec rb.openBefore pv op ro),
               ("C09", verdictC09 cfgSpec rb.lastNotif ro.emits ro.openAfter ro.fanOk),
-              ("C10", verdictC10 cfgSpec rb.openBefore rb.conc rb.concFb op ro), ("C12", verdictC12 ro.emits ro.readings),
+              ("C10", verdictC10 cfgSpec rb.openBefore rb.conc rb.concFb op ro), ("C12", (verdictC12 ro.emits ro.readings).orElse fun _ => verdictC12o ro.emits ro.readings),
               ("C03", if ck == .hystrix then SpecC03.verdictExec rb.c03 cfgSpec rb.openBefore ro else none)],
              { c03 := rb.c03.afterExec rb.openBefore ro, openBefore := ro.openAfter, lastNotif := ((notifs ro.emits).getLast?).orElse fun _ => rb.lastNotif, conc := ro.conc, concFb := ro.concFb })
         runCircuitOps ck c' cfgSpec rb' rest (acc.push (fmtExecObs mo ++ "\t" ++ spec))
